@@ -12,12 +12,17 @@ RULE = ('TCPCL: C01/C09 plan space with extra user calls (queue queries, idle qu
         'UDPCL: engine E6 runs with the same marshalling check and queue model. Non-trivial: at least one query answered while '
         'a transfer was queued, in progress or awaiting pop; distinct = distinct event-history digests.')
 COMPONENTS = tc.COMPONENTS
-PROBES = ('probe.query_during_transfer', 'probe.idle_true', 'probe.idle_false', 'probe.double_pop', 'wire.SESS_TERM', 'engine.tcpcl', 'engine.udpcl')
+PROBES = ('probe.query_during_transfer', 'probe.idle_true', 'probe.idle_false', 'probe.double_pop', 'wire.SESS_TERM', 'engine.tcpcl', 'engine.udpcl', 'engine.fullstack')
 ASSUMPTIONS = ['as C01', 'marshalling model agrees with dbus-python 1.3.2 on the argument shapes the agents produce (selftest fidelity)']
 CHUNK = 10
 
 
 def gen(ch, tier):
+    if ch.coin('fullstack', 1, 6):
+        sends = sorted(([ch.choice('t', (0, 0, 1000, 5000, 200000)) + 1000 * ch.pick('tt', 300), ch.choice('len', (1, 30, 150, 400, 1200)), ix + 1]
+                        for ix in range(1 + ch.pick('nsend', 6))), key=lambda item: item[0])
+        return dict(scenario='full_stack', mtu=ch.choice('mtu', (None, 100, 300, 1400)), bp_mtu=ch.choice('bpmtu', (None, None, 260)),
+                    net=dict(dg_reorder_64=ch.choice('reo', (0, 16, 40)), dg_dup_64=ch.choice('dup', (0, 0, 8))), sends=sends)
     if ch.coin('udpcl', 1, 4):
         from props import C13
         plan = C13.gen(ch, tier)
@@ -47,11 +52,72 @@ def gen(ch, tier):
 def execute(plan, sched, verbose=False):
     if plan.get('scenario') == 'udpcl_dbus':
         return _execute_udpcl(plan, sched, verbose)
+    if plan.get('scenario') == 'full_stack':
+        return _execute_fullstack(plan, sched, verbose)
     return tcpcl_pair.run_plan(plan, sched, verbose)
 
 
 class _URun:
     pass
+
+
+def _execute_fullstack(plan, sched, verbose):
+    ''' E5f: bp + real UdpclAdaptor + udpcl agents on two hosts; the BP side pops on the finished signal. '''
+    from scenarios import full_stack, bp_net
+    from props import bp_common as bc
+    from bp.encoding import PrimaryBlock, CanonicalBlock
+    from bp.util import BundleContainer
+    har = full_stack.FullStackHarness(plan, sched, verbose)
+    run = _URun()
+    run.har = har
+    run.wld = har.wld
+    run.plan = plan
+    run.viols = []
+    run.stats = {'engine.fullstack': 1}
+    wld = har.wld
+    try:
+        def do_send(item):
+            (_when, plen, tag) = item
+            ctr = BundleContainer()
+            ctr.bundle.primary = PrimaryBlock(bundle_flags=0, destination='dtn://b/app', crc_type=2)
+            ctr.bundle.blocks = [CanonicalBlock(type_code=1, block_num=1, crc_type=2, btsd=bc.body(tag, plen))]
+            har.send('bpA', ctr)
+
+        for item in plan['sends']:
+            wld.at(item[0], do_send, item)
+        har.run_until(6 * full_stack.SEC)
+        har.settle(window_us=3 * full_stack.SEC)
+        for evt in wld.hist:
+            if evt[3] == 'dbus-marshal-error':
+                run.viols.append(('dbus-type', 'fullstack-%s:%s' % (evt[4], evt[6]), '%s %s does not conform to signature %r: args %r (%s)' % (evt[4], evt[6], evt[7], evt[8], evt[9])))
+                return run
+            if evt[3] == 'dbus-error' and evt[6] in ('recv_bundle_pop_data', 'send_bundle_data'):
+                run.viols.append(('adaptor', 'call-failed-%s' % evt[6], 'BP-side adaptor call %s failed: %s %s' % (evt[6], evt[7], evt[8])))
+                return run
+            if evt[3] == 'escaped-exception':
+                run.viols.append(('adaptor', 'escaped-%s@%s' % (evt[4], evt[5]), '%s escaped from %s in node %s' % (evt[4], evt[5], evt[2])))
+                return run
+        want = {}
+        expect = {}
+        for (_when, plen, tag) in plan['sends']:
+            want[bc.body(tag, plen)] = 0
+            expect[bc.body(tag, plen)] = expect.get(bc.body(tag, plen), 0) + 1
+        for rec in har.delivered['bpB']:
+            if rec['payload'] not in want:
+                run.viols.append(('end-to-end', 'foreign-payload', 'the destination delivered %d octets nobody sent' % len(rec['payload'])))
+                return run
+            want[rec['payload']] += 1
+        for (body, count) in want.items():
+            if count != expect[body]:
+                run.viols.append(('end-to-end', 'delivered-%d-times' % count, 'a %d-octet bundle sourced at A reached the application at B %d times' % (len(body), count)))
+                return run
+        left = list(har.cl['B']._rx_queue)
+        if left:
+            run.viols.append(('adaptor', 'not-popped', 'UDPCL agent at B still queues transfers %r: the BP adaptor did not pop them' % left))
+        run.stats['probe.query_during_transfer'] = 1
+    finally:
+        bp_net.CURRENT = None
+    return run
 
 
 def _execute_udpcl(plan, sched, verbose):
@@ -150,6 +216,9 @@ def describe(run):
     if isinstance(run, _URun):
         counters = dict(run.wld.counters)
         counters.update(run.stats)
+        if run.plan.get('scenario') == 'full_stack':
+            return dict(nontrivial=True, key=run.wld.digest(), sim_us=run.wld.now, steps=run.wld.steps, capped=run.wld.capped, counters=counters,
+                        sample=dict(engine='fullstack', mtu=run.plan['mtu'], bp_mtu=run.plan['bp_mtu'], sends=run.plan['sends'], net=run.plan['net']))
         counters['engine.udpcl'] = 1
         return dict(nontrivial=bool(run.stats.get('probe.query_during_transfer')), key=run.wld.digest(), sim_us=run.wld.now, steps=run.wld.steps,
                     capped=run.wld.capped, counters=counters, sample=dict(engine='udpcl', mtu=run.plan['mtu'], queries=run.plan['queries'][:8]))
